@@ -8,28 +8,13 @@
 (* [ptr, len, stride]: `ptr' is the cell of the logical first element,     *)
 (* logical element t lives in cell ptr + t*stride (stride may be negative) *)
 (***************************************************************************)
-EXTENDS Prelude
+EXTENDS ViewOps
 
 CONSTANT FixF3   \* TRUE: Option<T>::remove_nan_mut goes through cast_view_mut (repaired);
                  \* FALSE: from_shape_ptr(dim, as_ptr), i.e. unit stride (pinned commit)
 
-Cell(mem, k) == mem[k + 1]
-VAddr(v, t)  == v.ptr + t * v.stride
-VAddrs(v)    == {VAddr(v, t) : t \in 0..(v.len - 1)}
-VElem(mem, v, t) == Cell(mem, VAddr(v, t))
-VLane(mem, v) == [t \in 1..v.len |-> VElem(mem, v, t - 1)]
-InBuffer(mem, v) == \A a \in VAddrs(v) : 0 <= a /\ a < Len(mem)
-Injective(v) == v.len <= 1 \/ v.stride # 0
-
 IsMissing(x) == x = 0
 Kept(s) == SelectSeq(s, LAMBDA x : ~IsMissing(x))
-
-(* C03: `after' differs from `before' only by a permutation inside the     *)
-(* cells of view v.                                                        *)
-FrameOK(before, after, v) ==
-    /\ Len(before) = Len(after)
-    /\ \A k \in 0..(Len(before) - 1) : k \notin VAddrs(v) => Cell(after, k) = Cell(before, k)
-    /\ SameBag(VLane(before, v), VLane(after, v))
 
 (* C04: remove_nan_mut on view `vin' of `before' returned view `vout' and  *)
 (* left `after'.                                                           *)
